@@ -255,6 +255,13 @@ def c17(R):
             Tab(ns, r, p2, prob_as_array=paa).build_transition_and_reward_matrices(); R.fail("c17.error_path", "probabilities off by 0.01 but no ValueError", dict(inp, bad_pair=[s_bad, a_bad]))
         except ValueError as ex:
             if f"state {s_bad}, action {a_bad}" not in str(ex): R.fail("c17.error_names_pair", "ValueError does not name the offending (state, action)", dict(inp, bad_pair=[s_bad, a_bad]), str(ex)[:120])
+        if N * A > 1:                                               # ONE deficient row among healthy ones must be reported as well (not only over-full rows)
+            p4 = p.copy(); p4[s_bad, a_bad, 0] -= min(0.02, 0.9 * p4[s_bad, a_bad, 0]); defect = float(1 - p4[s_bad, a_bad].sum())
+            if defect > 2e-4:
+                try:
+                    Tab(ns, r, p4, prob_as_array=paa).build_transition_and_reward_matrices(); R.fail("c17.error_path_deficient_row", "one row sums to less than 1 - tolerance but no ValueError (it would be silently renormalised)", dict(inp, bad_pair=[s_bad, a_bad], row_sum=1 - defect))
+                except ValueError as ex:
+                    if f"state {s_bad}, action {a_bad}" not in str(ex): R.fail("c17.error_names_pair", "ValueError does not name the offending (state, action)", dict(inp, bad_pair=[s_bad, a_bad]), str(ex)[:120])
         p3 = p.copy(); p3[s_bad, a_bad, 0] += 5e-5                  # inside the tolerance: accepted and renormalised
         try:
             P3, _ = Tab(ns, r, p3, prob_as_array=paa).build_transition_and_reward_matrices()
